@@ -11,3 +11,5 @@ INVARIANT Refines
 INVARIANT RefinesOne
 INVARIANT Shrinks
 CHECK_DEADLOCK FALSE
+CONSTANT Emit = FALSE
+CONSTANT FoldRule = "local"
